@@ -13,8 +13,17 @@ for ID in sys.argv[2:]:
         if not os.path.exists(d + "/demo.diff"):
             continue
         head = open(d + "/demo.diff").read().split("diff --git")[0]
-        cmds = [l.lstrip("#").strip() for l in head.splitlines() if ("cargo nextest run" in l or "cargo test" in l) and l.lstrip().startswith("#")]
-        cmds = [c for c in cmds if not c.startswith("(")]
+        cmds = []
+        for l in head.splitlines():
+            if "cargo nextest run" not in l and "cargo test" not in l:
+                continue
+            c = l.lstrip("# \t")
+            if c.startswith("("):
+                continue
+            # drop a leading label such as "Run:" / "Run with:"
+            m = re.search(r"(cd /tmp/|CARGO_TARGET_DIR=|OSRG_RUSTYBGP_VERIF_DIR=|RUSTFLAGS=|cargo )", c)
+            if m:
+                cmds.append(c[m.start():].strip())
         if not cmds:
             print(f"VERIFY {d}: no run command found in demo.diff"); continue
         cmd = cmds[0]
